@@ -273,10 +273,20 @@ struct Sys {
     receivers: Vec<Address>,
     vleaf: Vec<Vec<H32>>,     // random leaf hashes [salt][k] for the verify calls
     last_root: Option<H32>,
+    /// model claim index k -> the index put into the leaf and asked of is_claimed ("spread" runs: indices that
+    /// differ in single high or low bits, so that packed / bucketed claimed flags cannot alias unnoticed);
+    /// the identity otherwise, and always in positional mode (where the index is the leaf's position and the
+    /// specification derives the tree shape from the number of leaves).
+    imap: Vec<u32>,
+    spread: bool,
 }
 
+const SPREAD_S: [u32; 16] = [5, 133, 261, 6, 69, 197, 37, 65_541, 65_669, 16_777_221, 2_147_483_653, 2_147_483_781,
+                             u32::MAX - 10, u32::MAX - 138, 127, 0];
+const SPREAD_P: [u32; 16] = [5, 133, 261, 6, 134, 0, 128, 256, 64, 192, 127, 255, 1, 129, 2, 130];
+
 impl Sys {
-    fn new(flavour: &str, mode: &str, u: usize, seed: u64) -> Sys {
+    fn new(flavour: &str, mode: &str, u: usize, seed: u64, spread: bool) -> Sys {
         let e = new_env(&LedgerCfg::default());
         let mut r = StdRng::seed_from_u64(seed);
         // Address::generate is a deterministic sequence per Env: skip a seeded number of addresses
@@ -299,7 +309,9 @@ impl Sys {
             f => panic!("flavour {f}"),
         };
         let vleaf = (0..2).map(|_| (0..u).map(|_| rand32(&mut r)).collect()).collect();
-        Sys { e, flavour: flavour.into(), mode: mode.into(), hk, u, r, verifier, dist, token, owner, receivers, vleaf, last_root: None }
+        Sys { e, flavour: flavour.into(), mode: mode.into(), hk, u, r, verifier, dist, token, owner, receivers, vleaf, last_root: None, spread,
+              imap: (0..u).map(|k| if !spread || mode != "s" { k as u32 } else if mode == "s" { SPREAD_S[k % 16] + (k / 16) as u32 * 1000 }
+                                   else { SPREAD_P[k % 16] + (k / 16) as u32 * 300 }).collect() }
     }
 
     fn hs(&self) -> Hs<'_> {
@@ -312,12 +324,36 @@ impl Sys {
 
     /// hash of the claim leaf (index k, receiver k, Amt(salt, k)) — what the tooling would put in the tree
     fn cleaf(&self, salt: i64, k: usize) -> H32 {
-        let x = self.receiver(k as u32, k, amt(salt, k as i64)).to_xdr(&self.e);
+        let x = self.receiver(self.ix(k), k, amt(salt, k as i64)).to_xdr(&self.e);
         let mut buf = std::vec::Vec::new();
         for b in x.iter() {
             buf.push(b);
         }
         self.hs().hash(&buf)
+    }
+
+    /// the real claim index of model index k (indices beyond the universe are passed through)
+    fn ix(&self, k: usize) -> u32 {
+        self.imap.get(k).copied().unwrap_or(k as u32)
+    }
+
+    /// position of model leaf k in the claim tree
+    fn px(&self, k: usize) -> usize {
+        if self.mode == "s" { k } else { self.ix(k) as usize }
+    }
+
+    /// the claim tree of model size n: in positional spread runs the model leaves sit at their real indices and
+    /// every other position up to the highest one holds a filler leaf
+    fn claim_leaves(&self, salt: i64, n: usize) -> Vec<H32> {
+        if self.mode == "s" || !self.spread {
+            return self.leaves(true, salt, n);
+        }
+        let top = (0..n).map(|k| self.px(k)).max().unwrap_or(0);
+        let mut v: Vec<H32> = (0..=top).map(|p| self.hs().hash(&[0xF1, (p & 255) as u8, (p >> 8) as u8])).collect();
+        for k in 0..n {
+            v[self.px(k)] = self.cleaf(salt, k);
+        }
+        v
     }
 
     fn leaves(&self, claim: bool, salt: i64, n: usize) -> Vec<H32> {
@@ -342,14 +378,15 @@ impl Sys {
         let mut claimed = std::vec::Vec::new();
         let mut rootset = false;
         if let Some(d) = &self.dist {
-            for i in 0..self.u as u32 {
+            for k in 0..self.u as u32 {
+                let i = self.ix(k as usize);
                 let c = match self.flavour.as_str() {
                     "sha" => dist_sha::DistClient::new(e, d).try_is_claimed(&i).map(|x| x.unwrap_or(false)).unwrap_or(false),
                     "kec" => dist_kec::DistClient::new(e, d).try_is_claimed(&i).map(|x| x.unwrap_or(false)).unwrap_or(false),
                     _ => airdrop::AirdropContractClient::new(e, d).try_is_claimed(&i).map(|x| x.unwrap_or(false)).unwrap_or(false),
                 };
                 if c {
-                    claimed.push(i);
+                    claimed.push(k);
                 }
             }
             rootset = match self.flavour.as_str() {
@@ -373,7 +410,7 @@ impl Sys {
 
     fn reset_event(&self) -> Value {
         json!({"op": {"op": "reset", "n": 0, "style": "none", "salt": 0, "pos": 0, "corr": "none", "i": 0, "j": 0,
-                      "flavour": self.flavour, "mode": self.mode, "u": self.u},
+                      "flavour": self.flavour, "mode": self.mode, "u": self.u, "spread": self.spread},
                "res": "ok", "ret": "na", "err": 0, "obs": self.obs()})
     }
 }
@@ -409,7 +446,7 @@ impl Sys {
         no_auth(&self.e);
         let (res, code, ret): (&str, i64, &str) = match kind.as_str() {
             "set_root" => {
-                let root = self.hs().root(&style, &self.leaves(true, salt, n));
+                let root = self.hs().root(&style, &self.claim_leaves(salt, n));
                 let rb = self.bn(&root);
                 let out = match self.flavour.as_str() {
                     "sha" => res_of(&dist_sha::DistClient::new(&self.e, self.dist.as_ref().unwrap()).try_set_root(&rb)),
@@ -477,10 +514,10 @@ impl Sys {
             }
             "claim" => {
                 let hs = self.hs();
-                let leaves = self.leaves(true, salt, n);
-                let base = hs.proof(&style, &leaves, if corr == "other" { cj } else { pos });
+                let leaves = self.claim_leaves(salt, n);
+                let base = hs.proof(&style, &leaves, self.px(if corr == "other" { cj } else { pos }));
                 let pv = self.proof_val(&corrupt(&base, &corr, ci, cj, fresh));
-                let index: u32 = if corr == "index" { cj as u32 } else { pos as u32 };
+                let index: u32 = self.ix(if corr == "index" { cj } else { pos });
                 let amount = amt(salt, pos as i64) + if corr == "leaf" { 1 } else { 0 };
                 let data = self.receiver(index, pos, amount);
                 let out = match (self.flavour.as_str(), &self.dist) {
@@ -533,7 +570,9 @@ fn main() {
                     Some(f) => vec![f],
                 };
                 for fl in flavours {
-                    let mut sys = Sys::new(fl, &mode, u, 0xC17 + bi as u64);
+                    // behaviours printed by TLC alternate between the two index maps; a replay names its own
+                    let spread = b.cfg.get("spread").and_then(|v| v.as_bool()).unwrap_or(bi % 2 == 1);
+                    let mut sys = Sys::new(fl, &mode, u, 0xC17 + bi as u64, spread);
                     t.reset(sys.reset_event());
                     for op in &b.ops {
                         let ev = sys.step(op);
@@ -550,15 +589,18 @@ fn main() {
             const U: usize = 16;
             for run in 0..runs {
                 let (fl, mode) = combos[run % combos.len()];
-                let mut sys = Sys::new(fl, mode, U, r.gen());
+                // a few positional runs use trees of 130..136 leaves: positions (= claim indices) that differ in bit 7
+                let wide = mode == "p" && (run / combos.len()) % 3 == 2;
+                let uu = if wide { 136 } else { U };
+                let mut sys = Sys::new(fl, mode, uu, r.gen(), (run / combos.len()) % 2 == 1);
                 t.reset(sys.reset_event());
                 let styles: &[&str] = if mode == "s" { &STYLES_S } else { &STYLES_P };
-                let nmax = *pick(&mut r, &[4usize, 6, 9, 12]);
+                let nmax = if wide { 136 } else { *pick(&mut r, &[4usize, 6, 9, 12]) };
                 // state feedback: the tree whose root is installed, and the indices claimed so far
                 let mut cur: Option<(usize, String, i64)> = None;
                 let mut claimed: Vec<usize> = vec![];
                 for _ in 0..len {
-                    let fresh_tree = |r: &mut StdRng| (r.gen_range(1..=nmax), pick(r, styles).to_string(), r.gen_range(0..2i64));
+                    let fresh_tree = |r: &mut StdRng| (if wide { r.gen_range(130..=nmax) } else { r.gen_range(1..=nmax) }, pick(r, styles).to_string(), r.gen_range(0..2i64));
                     let kind = if cur.is_none() {
                         *pick(&mut r, &["set_root", "set_root", "claim", "verify"])
                     } else {
